@@ -94,29 +94,48 @@ DeepBy(cnf, nv) ==
              LET m == Max({AbsLit(cnf[j][q]) : q \in DOMAIN cnf[j]} \cup {0})
              IN  IF m = 0 THEN acc ELSE [acc EXCEPT ![m] = @ \cup {j}],
            [k \in 1 .. nv |-> {}], [j \in DOMAIN cnf |-> j])
-DeepRun(cnf, by0, n, nv, a) ==
+(* one pass from variable k0 with the true-set T0: ends with r = "sat" / "unsat", or stops at the first variable k
+   (r = "free", at = k) whose clauses leave both values *)
+DeepRun(ctx, k0, T0) ==
   FoldLeft(LAMBDA acc, k :
      IF acc.r # "go" THEN acc
      ELSE LET holds(cl, b) == \E q \in DOMAIN cl :
                                 LET x == cl[q]  v == AbsLit(x)
                                 IN  IF v = k THEN (x > 0) = b ELSE (x > 0) = (v \in acc.T)
-              ok(b) == \A j \in acc.by[k] : holds(acc.cnf[j], b)
-          IN IF k <= n THEN (IF ok(acc.a[k]) THEN [acc EXCEPT !.T = IF acc.a[k] THEN @ \cup {k} ELSE @] ELSE [acc EXCEPT !.r = "unsat"])
-             ELSE IF ok(TRUE) /\ ok(FALSE) THEN [acc EXCEPT !.r = "free"]
+              ok(b) == \A j \in acc.ctx.by[k] : holds(acc.ctx.cnf[j], b)
+          IN IF k <= acc.ctx.n
+             THEN (IF ok(acc.ctx.a[k]) THEN [acc EXCEPT !.T = IF acc.ctx.a[k] THEN @ \cup {k} ELSE @] ELSE [acc EXCEPT !.r = "unsat"])
+             ELSE IF ok(TRUE) /\ ok(FALSE) THEN [acc EXCEPT !.r = "free", !.at = k]
              ELSE IF ok(TRUE) THEN [acc EXCEPT !.T = @ \cup {k}]
              ELSE IF ok(FALSE) THEN acc
              ELSE [acc EXCEPT !.r = "unsat"],
-   [r |-> IF \E j \in DOMAIN cnf : cnf[j] = <<>> THEN "unsat" ELSE "go", T |-> {}, by |-> by0, cnf |-> cnf, a |-> a],
-   [k \in 1 .. nv |-> k])
+   [r |-> IF \E j \in DOMAIN ctx.cnf : ctx.cnf[j] = <<>> THEN "unsat" ELSE "go", T |-> T0, at |-> 0, ctx |-> ctx],
+   [k \in 1 .. (ctx.nv - k0 + 1) |-> k0 + k - 1])
+(* a variable that is free at its own position may still be constrained by a LATER clause (it is then not defined by
+   smaller variables: an under-constrained or differently shaped CNF): both values are tried, up to `budget` such
+   variables per input assignment; beyond that the case is not decided.  Result: [res, multi] *)
+RECURSIVE DeepSolve(_, _, _, _)
+DeepSolve(ctx, k0, T0, budget) ==
+  LET run == DeepRun(ctx, k0, T0) IN
+  IF run.r = "go" THEN [res |-> "sat", multi |-> FALSE]
+  ELSE IF run.r = "unsat" THEN [res |-> "unsat", multi |-> FALSE]
+  ELSE IF budget = 0 THEN [res |-> "undecided", multi |-> FALSE]
+  ELSE LET f == DeepSolve(ctx, run.at + 1, run.T, budget - 1)
+           t == DeepSolve(ctx, run.at + 1, run.T \cup {run.at}, budget - 1)
+       IN IF f.res = "undecided" \/ t.res = "undecided" THEN [res |-> "undecided", multi |-> FALSE]
+          ELSE IF f.res = "sat" /\ t.res = "sat" THEN [res |-> "sat", multi |-> TRUE]
+          ELSE IF f.res = "sat" THEN f ELSE IF t.res = "sat" THEN t
+          ELSE [res |-> "unsat", multi |-> FALSE]
 DeepVerdicts(c) ==       \* one record per input assignment
   LET n == Len(c.c.i)
       nv == Max({n, MaxVar(c.cnf)})
       pre == [by |-> DeepBy(c.cnf, nv), G |-> AsFcn(c.c.g)]
   IN [a \in [1 .. n -> BOOLEAN] |->
-        LET run == DeepRun(c.cnf, pre.by, n, nv, a)
+        LET run == DeepSolve([cnf |-> c.cnf, by |-> pre.by, n |-> n, nv |-> nv, a |-> a], 1, {}, 6)
             ev == EvalChecked(pre.G, c.order, [l \in SeqSet(c.c.i) |-> IF a[Pos(c.c.i, l)] THEN {0} ELSE {}], {0})
             evok == ev.ok /\ \A j \in DOMAIN c.sel : c.c.o[c.sel[j] + 1] \in DOMAIN ev.v
-        IN [res |-> IF run.r = "go" THEN "sat" ELSE run.r,
+        IN [res |-> IF run.res = "undecided" THEN "free" ELSE run.res,
+            multi |-> run.multi,
             evok |-> evok,
             want |-> evok /\ \A j \in DOMAIN c.sel : 0 \in ev.v[c.c.o[c.sel[j] + 1]]]]
 C05DeepFails(c) ==
@@ -124,7 +143,10 @@ C05DeepFails(c) ==
   ELSE IF ~CnfLiteralsOK(c.cnf) THEN {"cnf-contains-the-literal-0"}
   ELSE LET vs == DeepVerdicts(c) IN
        FailSet(<< <<"deep-cnf-not-exact",
-                    \A a \in DOMAIN vs : ~vs[a].evok \/ vs[a].res = "free" \/ ((vs[a].res = "sat") <=> vs[a].want)>> >>)
+                    \A a \in DOMAIN vs : ~vs[a].evok \/ vs[a].res = "free" \/ ((vs[a].res = "sat") <=> vs[a].want)>>,
+                  \* the satisfying extension is unique (it gives every encoded gate its evaluated value)
+                  <<"deep-cnf-leaves-a-variable-unconstrained",
+                    \A a \in DOMAIN vs : ~vs[a].evok \/ vs[a].res # "sat" \/ ~vs[a].multi>> >>)
 C05DeepDrift(c) ==
   IF c.exc # "" \/ ~CnfLiteralsOK(c.cnf) THEN {}
   ELSE LET vs == DeepVerdicts(c) IN
